@@ -510,7 +510,8 @@ impl<'a> Gen<'a> {
                     body = par(guard, body);
                 }
                 let nx = Instr::Next { x: it.clone() };
-                let i = if self.chance(0.7) || !over_canon { par(body, nx) } else { seq(body, nx) };
+                // stream folds mostly fan out (par); the sequential shape stops at the first iteration that is not complete
+                let i = if self.chance(if over_canon { 0.7 } else { 0.75 }) { par(body, nx) } else { seq(body, nx) };
                 let last = if self.profile == Profile::Full && self.chance(0.2) { Instr::Null } else { Instr::Absent };
                 return (Instr::Fold { it: var(&s), x: it, i: Box::new(i), last: Box::new(last) }, env.clone());
             }
